@@ -95,6 +95,42 @@ theorem workIn_stepReqAll (w : World) (u : Univ) (hu : ClosedU w u) (s : State) 
   · exact hf p hpm
   · exact hs x hx
 
+theorem foldl_inv {α β} (g : β → α → β) (P : β → Prop) : ∀ (l : List α) (b : β), P b →
+    (∀ b a, a ∈ l → P b → P (g b a)) → P (l.foldl g b)
+  | [], b, hb, _ => hb
+  | a :: l, b, hb, hstep => by
+    simp only [List.foldl]
+    exact foldl_inv g P l (g b a) (hstep b a (by simp) hb) (fun b' a' ha' => hstep b' a' (List.mem_cons_of_mem _ ha'))
+
+/-- the module at the end of a resolved path lies in the universe -/
+theorem findName_mods (w : World) (u : Univ) (hu : ClosedU w u) : ∀ (f : Nat) (vis : List Nat) (x n : Nat),
+    x ∈ u.mods → ∀ p d, (findName w f vis x n).2 = some (p, d) → d ∈ u.mods
+  | 0, vis, x, n, _, p, d, h => by simp [findName] at h
+  | f + 1, vis, x, n, hx, p, d, h => by
+    unfold findName at h
+    split at h
+    · simp at h
+    · split at h
+      · simp only [Option.some.injEq, Prod.mk.injEq] at h
+        obtain ⟨_, rfl⟩ := h
+        exact hx
+      · have hstars := (hu x hx).2.2.2.1
+        refine foldl_inv _ (fun (acc : List Nat × Option (List (Nat × Nat) × Nat)) => ∀ p d, acc.2 = some (p, d) → d ∈ u.mods) _ _ ?_ ?_ p d h
+        · intro p d hp; simp at hp
+        · intro acc s hs hacc p d hp
+          cases ha : acc.2 with
+          | some r =>
+            simp only [ha] at hp
+            exact hacc p d (by rw [ha]; exact hp)
+          | none =>
+            simp only [ha] at hp
+            cases hr : (findName w f acc.1 s n).2 with
+            | none => simp [hr] at hp
+            | some pd =>
+              simp only [hr, Option.map_some, Option.some.injEq, Prod.mk.injEq] at hp
+              obtain ⟨_, rfl⟩ := hp
+              exact findName_mods w u hu f acc.1 s n (hstars s hs) pd.1 pd.2 (by rw [hr])
+
 theorem stepReqName_done (w : World) (s : State) (m n : Nat) : (stepReqName w s m n).done = s.done := by
   unfold stepReqName
   simp only
@@ -133,17 +169,17 @@ theorem workIn_stepReqName (w : World) (u : Univ) (hu : ClosedU w u) (s : State)
         subst ht
         exact hf p (find?_mem' _ _ _ hfp)
       · split
-        · rename_i x hsp
-          refine workIn_append h [.reqName x n] ?_ _ rfl
+        · rename_i edges d hsp
+          refine workIn_append h [.reqName d n] ?_ _ rfl
           intro t ht
           simp only [List.mem_singleton] at ht
           subst ht
-          have hx : x ∈ (w.mod m).stars := by
-            unfold starProvider at hsp
+          have hd' : d ∈ u.mods := by
+            unfold findPath at hsp
             split at hsp
             · cases hsp
-            · exact List.mem_of_find?_eq_some hsp
-          exact ⟨hs x hx, hn⟩
+            · exact findName_mods w u hu _ _ m n hm edges d hsp
+          exact ⟨hd', hn⟩
         · exact h
 
 theorem stepLocal_done (w : World) (s : State) (m l : Nat) : (stepLocal w s m l).done = s.done := by
@@ -472,5 +508,54 @@ theorem trace_terminates (w : World) (entries : List Nat) : ∃ fuel r, trace w 
   show m ∈ (univOf w entries).mods
   simp only [univOf, List.mem_append]
   exact Or.inl (Or.inl hm)
+
+end DG.Trace
+
+namespace DG.Trace
+
+/-- a chain of `export *` edges from `x` to `d` -/
+def IsStarPath (w : World) : Nat → List (Nat × Nat) → Nat → Prop
+  | x, [], d => x = d
+  | x, (a, b) :: rest, d => a = x ∧ b ∈ (w.mod x).stars ∧ IsStarPath w b rest d
+
+/-- **what a resolved path is**: a chain of `export *` edges from the asking module to a module
+that has the name as its own -/
+theorem findName_spec (w : World) : ∀ (f : Nat) (vis : List Nat) (x n : Nat) (p : List (Nat × Nat)) (d : Nat),
+    (findName w f vis x n).2 = some (p, d) → IsStarPath w x p d ∧ ownsName (w.mod d) n = true
+  | 0, vis, x, n, p, d, h => by simp [findName] at h
+  | f + 1, vis, x, n, p, d, h => by
+    unfold findName at h
+    split at h
+    · simp at h
+    · split at h
+      · rename_i hown
+        simp only [Option.some.injEq, Prod.mk.injEq] at h
+        obtain ⟨rfl, rfl⟩ := h
+        exact ⟨rfl, hown⟩
+      · refine foldl_inv _ (fun (acc : List Nat × Option (List (Nat × Nat) × Nat)) =>
+          ∀ p d, acc.2 = some (p, d) → IsStarPath w x p d ∧ ownsName (w.mod d) n = true) _ _ ?_ ?_ p d h
+        · intro p d hp; simp at hp
+        · intro acc s hs hacc p d hp
+          cases ha : acc.2 with
+          | some r =>
+            simp only [ha] at hp
+            exact hacc p d (by rw [ha]; exact hp)
+          | none =>
+            simp only [ha] at hp
+            cases hr : (findName w f acc.1 s n).2 with
+            | none => simp [hr] at hp
+            | some pd =>
+              simp only [hr, Option.map_some, Option.some.injEq, Prod.mk.injEq] at hp
+              obtain ⟨rfl, rfl⟩ := hp
+              obtain ⟨h1, h2⟩ := findName_spec w f acc.1 s n pd.1 pd.2 (by rw [hr])
+              exact ⟨⟨rfl, hs, h1⟩, h2⟩
+
+theorem findPath_spec (w : World) (m n : Nat) (p : List (Nat × Nat)) (d : Nat) (h : findPath w m n = some (p, d)) :
+    n ≠ 0 ∧ IsStarPath w m p d ∧ ownsName (w.mod d) n = true := by
+  unfold findPath at h
+  split at h
+  · cases h
+  · rename_i hn
+    exact ⟨hn, findName_spec w _ _ m n p d h⟩
 
 end DG.Trace
